@@ -126,7 +126,11 @@ static void ref_parse(const uint8_t* in, unsigned n, int opt_ws, int opt_nl, int
         }
         if (o->nred < MAXRED) { o->red[o->nred] = r; o->nred++; } else o->flags |= 2u;
         if (f == RF_CTXHASH) o->nctx++;
-      } else if (f == RF_DEFAULT) v = k ? val[base + 1] : 0;
+      } else if (f == RF_DEFAULT) {
+        /* no functor: the left-side value is constructed from the right-side values in order */
+        if (k == 0) v = 0; else if (k == 1) v = val[base + 1];
+        else { v = 0xD00Du; for (unsigned i = 1; i <= k; i++) v = v * 31u + val[base + i]; }
+      }
       else v = val[base + (f - RF_E1) + 1];
       sp = base;
       unsigned g = REF_goto[st[sp]][REF_rule_lhs[r]];
